@@ -540,6 +540,9 @@ Proof.
   exists s'. split; [|split; [|split; [exact Hdw' | exact Hfr]]].
   - unfold resize. sred.
     rewrite (stream_entry_ok s id e Hnth Ht). sred.
+    assert (E0 : (MAX_REGULAR_SECTOR * slen s <? new_len) = false).
+    { pose proof (ChainProofs.slen_pos s). apply N.ltb_ge. unfold MAX_REGULAR_SECTOR, MINI_STREAM_CUTOFF in *. nia. }
+    rewrite E0. sred.
     assert (E2 : (d_start e =? END_OF_CHAIN) = false) by lia. rewrite E2.
     assert (E3 : (d_len e <? MINI_STREAM_CUTOFF) = true) by lia. rewrite E3.
     assert (E4 : (new_len =? 0) = false) by lia. rewrite E4.
